@@ -560,6 +560,9 @@ func init() {
 	reg(rtPkg+".Now", func(in *Interp, fr *frame, fn *ssa.Function, args []Value) Value {
 		return in.now()
 	})
+	reg("os.Getuid", func(in *Interp, fr *frame, fn *ssa.Function, args []Value) Value { return in.tb.BV(64, 1000) })
+	reg("os.Getgid", func(in *Interp, fr *frame, fn *ssa.Function, args []Value) Value { return in.tb.BV(64, 1000) })
+	reg("os.Getpid", func(in *Interp, fr *frame, fn *ssa.Function, args []Value) Value { return in.tb.BV(64, 4242) })
 	reg("time.Since", func(in *Interp, fr *frame, fn *ssa.Function, args []Value) Value {
 		now := in.now()
 		sub := in.prog.LookupMethod(in.namedType("time", "Time"), nil, "Sub")
@@ -599,7 +602,8 @@ const unixToInternal = (1969*365 + 1969/4 - 1969/100 + 1969/400) * 86400
 func (in *Interp) now() Value {
 	tb := in.tb
 	if in.initMode > 0 {
-		in.unsupported("time.Now during package init")
+		// package initialisers run "at process start": a fixed early instant
+		return Struct{tb.BV(64, 0), tb.BV(64, uint64(unixToInternal+(1<<30))), (*Value)(nil)}
 	}
 	// structurally bounded: seconds fit 32 bits, nanoseconds are a remainder modulo 10^9
 	sec32 := in.freshVar("now.sec", 32)
